@@ -127,6 +127,16 @@ CHECKS = {
          "and, end to end, Data(dim_agg_length=..) for observations and forecasts alike.",
     technique="TLA+ spec (Aggregators.tla) model-checked with TLC; enumerated vectors/arrays/grids replayed into verif.aggregator and verif.data pre-aggregation",
     ref="6/C15"),
+ "C16": dict(
+    text="Diagrams.tla defines, per diagram, the series of points it must draw as functions of the common valid cases of Dataset.tla "
+         "(standard line and bar plots, obsfcst, qq, scatter, against, sort, hist, freq, error, performance, and the probabilistic "
+         "diagrams of the second tranche), one series per input in command-line order, with the every-value-in-one-bin lemma for binned "
+         "diagrams checked by TLC; every (dataset, diagram, option variant) is run through verif.driver.run with the Agg backend and "
+         "the Line2D / bar artists of the figure are projected (label, x data, y data): each expected series must be drawn under the "
+         "right label and in input order. Diagrams not yet transcribed are listed in the evidence of every run.",
+    technique="TLA+ spec (Diagrams.tla over Scoring/Dataset/Metrics) evaluated by TLC; expected series compared with the artists of the matplotlib figure produced by verif.driver.run",
+    note="Geometric decorations, cartopy maps and pixel output are not specified. ",
+    ref="6/C16"),
  "C17": dict(
     text="Figure.tla gives every documented appearance option one owned figure property (with the value it must read for each of two "
          "argument values), the few properties it may legitimately disturb, and the Independent lemma; TLC enumerates every consistent "
